@@ -1259,8 +1259,12 @@ class NinjaBackend(backends.Backend):
             write = old != scaninfo
 
         if write:
-            with open(pickle_abs, 'wb') as p:
+            # Written under another name and moved into place: an interrupted run must
+            # not leave a truncated file for the next one to load.
+            tmp_abs = pickle_abs + '~'
+            with open(tmp_abs, 'wb') as p:
                 pickle.dump(scaninfo, p)
+            os.replace(tmp_abs, pickle_abs)
 
         elem = NinjaBuildElement(self.all_outputs, json_file, rule_name, pickle_file)
         # A full dependency is required on all scanned sources, if any of them
